@@ -1248,9 +1248,10 @@ func runGatedPair(e *c07Env, aName, point, bName string, caseNo int) {
 
 func runC07(c *Ctx) {
 	r := c.R
-	r.SetRule("(1) short concurrent histories over loopback TCP: 2-16 clients x 1-6 operations (put/get/head/delete/copy incl. self-copy/list) on 1-3 keys per history, every written body unique, call/return stamped by one monotonic clock, a final read of every key at quiescence; every read must be exactly one uploaded body with matching ETag/length, and each key's sub-history must be linearizable against a register model (porcupine); (2) concurrent versioned uploads/deletes: ids distinct, GET ?versionId returns exactly that upload, nothing lost; (3) concurrent part uploads, completes and aborts of one upload: held parts are acknowledged uploads, at most one complete wins, the object is exactly the listed parts; (4) a slow reader overlapping an acknowledged overwrite and a slow uploader with reads in between; (5) every ordered pair (A parked at a hook point, B run inside A's window) of operation kinds on one key; (6) the Go race detector over all of it; memory structures audited at quiescence; on all six backends; distinct = distinct observed interleavings (sequence of call/return events per history)")
+	r.SetRule("(1) short concurrent histories over loopback TCP: 2-16 clients x 1-6 operations (put/get/head/delete/copy incl. self-copy/list) on 1-3 keys per history, every written body unique, call/return stamped by one monotonic clock, a final read of every key at quiescence; every read must be exactly one uploaded body with matching ETag/length, and each key's sub-history must be linearizable against a register model (porcupine); (2) concurrent versioned uploads/deletes: ids distinct, GET ?versionId returns exactly that upload, nothing lost; (3) concurrent part uploads, completes and aborts of one upload: held parts are acknowledged uploads, at most one complete wins, the object is exactly the listed parts; (4) a slow reader overlapping an acknowledged overwrite and a slow uploader with reads in between; (5) every ordered pair (A parked at a hook point, B run inside A's window) of operation kinds on one key; (6) bucket life cycle: create/delete/head bucket racing put/get/delete/list on two keys of that bucket, random histories over TCP and object operations parked at hook points with bucket operations inside the window, each whole history checked against a sequential bucket model (existence + both values) with porcupine; (7) the Go race detector over all of it; memory structures audited at quiescence; on all six backends; distinct = distinct observed interleavings (sequence of call/return events per history)")
 	nhist := r.Pick(140, 3000)
 	rounds := r.Pick(8, 150)
+	nlife := r.Pick(100, 2500)
 	kinds := drv.AllKinds
 	r.Set("backends", kinds)
 	racePrefix := os.Getenv("VERIF_RACE_LOG")
@@ -1266,6 +1267,11 @@ func runC07(c *Ctx) {
 			jobs = append(jobs, job{k, "hist", lo, lo + 20})
 		}
 		jobs = append(jobs, job{k, "multipart", 0, rounds}, job{k, "slow", 0, rounds})
+		if !drv.IsSingle(k) {
+			for lo := 0; lo < nlife; lo += 25 {
+				jobs = append(jobs, job{k, "lifecycle", lo, lo + 25})
+			}
+		}
 	}
 	jobs = append(jobs, job{drv.Mem, "versioned", 0, rounds})
 	rep.Parallel(len(jobs), 0, func(w, ji int) {
@@ -1294,6 +1300,10 @@ func runC07(c *Ctx) {
 		case "versioned":
 			for i := j.lo; i < j.hi; i++ {
 				runVersionedConcurrency(e, i)
+			}
+		case "lifecycle":
+			for i := j.lo; i < j.hi; i++ {
+				runBucketLifecycle(e, i)
 			}
 		}
 		c07Quiescent(r, s, j.kind)
@@ -1328,6 +1338,28 @@ func runC07(c *Ctx) {
 					}
 				}
 			}
+			// object operation parked, bucket operations inside its window
+			if !drv.IsSingle(kind) {
+				lcA := map[string][]string{
+					"put":    aOps["put"],
+					"get":    {"ensure-bucket.after", "get.before-copy"},
+					"delete": {"ensure-bucket.after", "fs.delete.between"},
+				}
+				lcB := [][]string{{"delbucket"}, {"delbucket", "create"}, {"delete", "delbucket"}, {"delete", "delbucket", "create"}, {"create"}}
+				for _, a := range []string{"put", "get", "delete"} {
+					for _, p := range lcA[a] {
+						if !pointApplies(p, kind) {
+							continue
+						}
+						for _, b := range lcB {
+							for _, obj := range []bool{false, true} {
+								caseNo++
+								runGatedLifecycle(e, a, p, b, obj, caseNo)
+							}
+						}
+					}
+				}
+			}
 			c07Quiescent(r, s, kind)
 			s.Close()
 		}
@@ -1358,6 +1390,8 @@ func runC07(c *Ctx) {
 	r.Require("requests_during_slow_upload", 30)
 	r.Require("multipart_completes_won", 5)
 	r.Require("version_reads", 100)
+	r.Require("bucket_lifecycle_histories_linearizable", 100)
+	r.Require("bucket_op_overlapping_object_op", 50)
 	if to := r.Counter("porcupine_timeouts"); to*100 > r.Counter("keys_linearizable")+1 {
 		r.Inconclusive(fmt.Sprintf("%d linearizability checks timed out", to))
 	}
